@@ -308,6 +308,8 @@ class FsAudit:
             try:
                 if event == 'open':
                     path, mode, flags = args[0], args[1], args[2]
+                    if isinstance(path, int):
+                        return      # re-opening an already open descriptor (os.fdopen) creates nothing
                     w = False
                     if isinstance(mode, str):
                         w = any(c in mode for c in 'wax+')
